@@ -782,8 +782,31 @@ func (c *Ctx) Eq(a, b *Term) *Term {
 	if a.Op == OpIte && b.Op == OpIte {
 		// the same injective constant table indexed twice (e.g. two hex digits): compare the indexes
 		if ta, ok := c.AsTable(a); ok && ta.X.W > 0 {
-			if tb, ok := c.AsTable(b); ok && sameTable(ta, tb) && ta.injective() && tb.injective() {
-				return c.Eq(ta.X, tb.X)
+			if tb, ok := c.AsTable(b); ok {
+				if sameTable(ta, tb) && ta.injective() && tb.injective() {
+					return c.Eq(ta.X, tb.X)
+				}
+				// two different tables: they can only agree on a value both contain
+				inA := map[uint64]bool{ta.Def: true}
+				for _, v := range ta.Vals {
+					inA[v] = true
+				}
+				var common []uint64
+				seen := map[uint64]bool{}
+				for _, v := range append(append([]uint64{}, tb.Vals...), tb.Def) {
+					if inA[v] && !seen[v] {
+						seen[v] = true
+						common = append(common, v)
+					}
+				}
+				if len(common) <= 4 {
+					var alts []*Term
+					for _, v := range common {
+						k := c.Const(v, a.W)
+						alts = append(alts, c.BAnd(c.Eq(a, k), c.Eq(b, k)))
+					}
+					return c.BOr(alts...)
+				}
 			}
 		}
 	}
